@@ -122,23 +122,35 @@ impl BrakingPoints {
                         / train_state.mass_compound().with_context(|| format_dbg!())?;
 
                     // exit after adding a couple of points if the next braking curve point will exceed the speed limit
-                    if speed_limit < bp_curr.speed_limit + vel_change {
-                        self.points.push(BrakingPoint {
-                            offset: bp_curr.offset - train_state.dt * speed_limit,
-                            speed_limit,
-                            speed_target: bp_curr.speed_target,
-                        });
-                        if bp_curr.speed_limit == speed_points[idx].speed_limit.abs() {
-                            break;
-                        }
+                    let is_break_through = speed_limit < bp_curr.speed_limit + vel_change;
+                    let (offset_new, mut speed_limit_new) = if is_break_through {
+                        (bp_curr.offset - train_state.dt * speed_limit, speed_limit)
                     } else {
                         // Add normal point to braking curve
-                        self.points.push(BrakingPoint {
-                            offset: bp_curr.offset
+                        (
+                            bp_curr.offset
                                 - train_state.dt * (bp_curr.speed_limit + 0.5 * vel_change),
-                            speed_limit: bp_curr.speed_limit + vel_change,
-                            speed_target: bp_curr.speed_target,
-                        });
+                            bp_curr.speed_limit + vel_change,
+                        )
+                    };
+                    // The new point may lie before the start of the current speed section, where a
+                    // lower limit may be posted (short faster window between slower sections)
+                    let mut idx_new = idx;
+                    while idx_new > 0 && offset_new < speed_points[idx_new].offset {
+                        idx_new -= 1;
+                        speed_limit_new =
+                            speed_limit_new.min(speed_points[idx_new].speed_limit.abs());
+                    }
+                    self.points.push(BrakingPoint {
+                        offset: offset_new,
+                        speed_limit: speed_limit_new,
+                        // never aim above the limit in force at this point
+                        speed_target: bp_curr.speed_target.min(speed_limit_new),
+                    });
+                    if is_break_through
+                        && bp_curr.speed_limit == speed_points[idx].speed_limit.abs()
+                    {
+                        break;
                     }
 
                     // Exit if the braking point passed the beginning of the path
@@ -147,11 +159,15 @@ impl BrakingPoints {
                     }
                 }
             }
-            self.points.push(BrakingPoint {
-                offset: speed_points[idx].offset,
-                speed_limit: speed_points[idx].speed_limit.abs(),
-                speed_target: speed_points[idx].speed_limit.abs(),
-            });
+            // Keep the points ordered: a braking curve that already reaches back past the start of
+            // this speed section supersedes the section start
+            if speed_points[idx].offset < self.points.last().unwrap().offset {
+                self.points.push(BrakingPoint {
+                    offset: speed_points[idx].offset,
+                    speed_limit: speed_points[idx].speed_limit.abs(),
+                    speed_target: speed_points[idx].speed_limit.abs(),
+                });
+            }
         }
 
         self.idx_curr = self.points.len() - 1;
